@@ -368,6 +368,48 @@ def r96(ctx, fx):
         ctx.finding(rid, k, "a sized bank must be padded with `fill` for exactly `size − len` bytes", ms.where)
 
 
+REORDER = ("::sorted", "::sorted_by", "::sorted_by_key", "::sorted_unstable", "::sorted_unstable_by", "::sorted_unstable_by_key", "::sorted_by_cached_key",
+           "::rev", "::sort", "::sort_by", "::sort_by_key", "::sort_unstable", "::sort_unstable_by", "::sort_unstable_by_key", "::sort_by_cached_key",
+           "::reverse", "::swap", "::rotate_left", "::rotate_right", "::shuffle", "::dedup", "::dedup_by_key", "::unique", "::unique_by")
+
+
+def r97(ctx, fx):
+    rid = ctx.rule("R9.7", "definition order is preserved end to end: between the insertion-ordered containers and the merge / write loops no reordering operation "
+                   "(sorted*, rev, sort*, reverse, swap, …) is applied to a sequence whose element type mentions Segment or Bank — `later-defined segments win "
+                   "overlaps` and `banks appear in definition order` depend on it")
+    n = 0
+    scope = [f for f in fx.all_fns() if (f.path.lstrip("<").startswith("mos_core::io::binary_writer") or f.path == "mos::commands::build::build_command" or
+                                          f.path.startswith("mos::commands::build::build_command::")) and "::tests::" not in f.path]
+    seen = {}
+    for f in sorted(scope, key=lambda f: f.path):
+        for bi, t in lib.calls(f):
+            p, fr = lib.callee(t)
+            pn = lib.norm(p or "")
+            if not t["args"]:
+                continue
+            pl = lib.op_place(t["args"][0])
+            if pl is None:
+                continue
+            ty = pl.get("ty") or f.locals[pl["l"]]["ty"]
+            if "codegen::segment::Segment" not in ty and "binary_writer::Bank" not in ty:
+                continue
+            n += 1
+            if not any(pn.endswith(r) for r in REORDER):
+                ctx.inst(rid, "%s|%s@%s" % (f.path, pn.rsplit("::", 1)[-1], t.get("line")), nontrivial=False)
+                continue
+            owner = f
+            while owner.kind == "closure" and owner.d.get("parent") in fx.fns:
+                owner = fx.fns[owner.d["parent"]]
+            seen[owner.path] = seen.get(owner.path, 0) + 1
+            key = "%s|reorder|%s#%d" % (owner.path, pn.rsplit("::", 1)[-1], seen[owner.path])
+            ctx.inst(rid, key, sample={"fn": owner.path, "op": pn, "line": t.get("line")})
+            ctx.finding(rid, key, "%s reorders the segments/banks (`%s`, line %s) before they are merged/written: with overlapping segments the one defined later no longer "
+                        "wins, or banks no longer appear in definition order" % (owner.path.rsplit("::", 1)[-1], pn.rsplit("::", 1)[-1], t.get("line")),
+                        "%s:%s" % (f.file, t.get("line")))
+    if n < 8:
+        ctx.fail_closed(rid, "fewer than 8 operations on segment/bank sequences found in the writer (%d)" % n)
+
+
 def run(ctx):
     fx = ctx.facts
     et = fx.fn(CC + "::emit_token")
@@ -380,5 +422,6 @@ def run(ctx):
     r94(ctx, fx)
     r95(ctx, fx)
     r96(ctx, fx)
+    r97(ctx, fx)
     ctx.not_decided("offsets, overlap resolution and padding arithmetic on concrete configurations; grouping of banks by filename on concrete inputs")
     ctx.assume("ref/config_keys.json transcribes the option tables of docs/src/guide/advanced.md (with `create-segment` as named by the property)")
